@@ -338,6 +338,86 @@ CONFIG['C19'] = {'assumptions': ['ASCII only: strings.ToLower/ToUpper/EqualFold 
                   '(all-accepting authenticators of a complete alternative authenticate) and on denco routing of the instantiated path (C01/C05)',
                   'stub consumers/producers/authenticators/handlers: the codecs themselves are not exercised']}
 
+CONFIG['C14'] = {'assumptions': ['tokens and API key values sent in headers are header-safe: no CR, LF or NUL (net/http rewrites or refuses them) - generators draw '
+                 'from visible ASCII, obs-text 0x80-0xff and inner spaces/tabs; surrounding whitespace is stripped by HTTP and the Spec says so',
+                 'header names are valid field names (RFC 7230 tokens); Request.Write silently drops others; special headers (Host, Content-Type, '
+                 'Content-Length, Accept, User-Agent, Transfer-Encoding) are not used as API key names',
+                 'strings.ToLower on the location argument is modelled ASCII-only',
+                 'Content-Type is what the client writes (parses without error); hand-crafted malformed Content-Type parameters are outside the '
+                 'model',
+                 'callbacks are total and, in the Ctx variants, return a context derived from the one they were given'],
+ 'go_entry': 'client.Runtime.CreateHttpRequest with client.BasicAuth/APIKeyAuth/BearerToken/Compose/PassThroughAuth and '
+             'Runtime.DefaultAuthentication -> http.Request.Write -> http.ReadRequest -> security.BasicAuth[Realm][Ctx] / APIKeyAuth[Ctx] / '
+             'BearerAuth[Ctx] .Authenticate; base64.{Std,URL}Encoding; http.CanonicalHeaderKey',
+ 'model_fn': 'authenticate (client writers + default wrapper) / transport / serve (authenticators); Base64.encode/decode; canon',
+ 'partial': [],
+ 'quick_n': 6000,
+ 'rule': 'stream R (n cases; the real client builds the request, it is serialised and re-read, the real authenticator runs on it with a recording '
+         'callback): per 20 cases 4 basic (user: any bytes without colon incl. NUL/non-ASCII, 1 in 10 empty, 1 in 10 with a colon; password: any '
+         'bytes incl. colons, empty), 4 API key (names from a pool of 12 + random token names, query names any bytes; location header/query, case '
+         'variants and unknown locations on either side; case-variant / different server key names; values header-safe or any bytes, 1 in 12 empty; '
+         'something already set at the place 1 in 6), 6 bearer with EVERY subset of the 5 placements {BearerToken writer, Authorization set by the '
+         'parameters (Bearer or 10 other schemes incl. lower-case bearer, second header line), access_token query (1-2 values, empty values), '
+         'urlencoded form field, multipart form field} cycling through all 32 masks, x methods GET/POST/PUT/PATCH/DELETE, decoy names, form fields '
+         'under a JSON media type, 3 default-rule cases (own writer none/PassThrough/Compose(nil)/credential x default none/credential/Compose x '
+         'Authorization unset/empty/set/two lines), 3 malformed (hand-made Basic values: bad base64, missing padding, URL alphabet, no colon, extra '
+         "spaces, trailing garbage; odd Bearer spellings; failing writers; parameter of a foreign type). Every writer is placed as the operation's "
+         'own, as the default, or inside Compose with nil/PassThrough/other entries. All of BasicAuth, BasicAuthRealm, BasicAuthCtx, '
+         'BasicAuthRealmCtx, APIKeyAuth[Ctx], BearerAuth[Ctx]; *http.Request and *ScopedAuthRequest parameters; callbacks returning principal or '
+         'nil, with and without error; 0-3 required scopes. Stream B (base64 library): every length 0..64 x both alphabets x encode and decode on '
+         'every run, plus n/5 random: encodings with CR/LF inserted, one character replaced, truncated, trailing material, non-canonical trailing '
+         'bits, padding in the middle, noise. Stream K: http.CanonicalHeaderKey on n/20 names (token bytes, case variants, invalid bytes, empty). '
+         'Non-trivial = anything but a request without credentials, presets and writers; distinct = distinct input lines.',
+ 'search_s': 60,
+ 'thorough_n': 60000,
+ 'thorough_seeds': 4,
+ 'trusted_base': ['reading of the property text into the Lean `Spec` (human step, RtVerif/Model/<id>.lean)',
+                  'correspondence check (differential: Go harness /verif/harness -> protocol lines -> compiled Lean driver rtdriver evaluating Model '
+                  'and Spec); coverage bounded by the generators',
+                  "factgen (go/ast extraction of constants/tables into RtVerif/Gen/Facts.lean) and the driver's line parser",
+                  'transport is MODELLED, not verified (Go stdlib): header field values arrive as set with optional whitespace stripped at both '
+                  'ends, header names by http.CanonicalHeaderKey (hand model, stream K), query parameters as set (url.Values.Encode / ParseQuery; '
+                  'supported by the GoURL escape round-trip theorem), form fields as set - multipart for every method, urlencoded for POST/PUT/PATCH '
+                  "only (Request.ParseForm). Each case compares the view the model predicts with what net/http's own accessors return on the re-read "
+                  'request',
+                  'encoding/base64 is a hand model (RtVerif/Base/Base64.lean: non-strict decoding, mandatory padding, CR/LF skipped), validated by '
+                  'stream B; its round-trip law is proved',
+                  'http.Request.BasicAuth (parseBasicAuth) is transcribed from GOROOT/src/net/http/request.go',
+                  'mime.ParseMediaType and runtime.ContentType are inputs (the media type is observed, not computed); the stdlib invariant "PostForm '
+                  'is empty unless the media type is urlencoded or multipart" (View.wf) is checked on every observed request',
+                  'context.Context plumbing of the Ctx variants is observed (callback context reaches the request, scheme name visible inside the '
+                  'callback) and folded into the marker fields; the model treats plain and Ctx variants alike']}
+
+CONFIG['C17'] = {'assumptions': ['ContentLength and the Content-Length header agree as on requests produced by net/http (the HasBody answer is judged only then; the '
+                 "generator's 4% inconsistent pairs still have their streams judged)",
+                 "scripted streams whose runs of zero-length reads reach bufio's maxConsecutiveEmptyReads (100) are outside the claim: bufio reports "
+                 'io.ErrNoProgress by design (such cases are generated, compared with the model, tagged ~longzerorun)',
+                 "a zero-length Read after Close may return (0, nil): 'reads after close fail' is judged for non-empty read buffers; no read after "
+                 'close ever returns data'],
+ 'go_entry': 'runtime.HasBody(req), req.Body.Read, req.Body.Close on a *http.Request whose Body is a scripted io.ReadCloser',
+ 'model_fn': 'hasBody / tower (peekingReader over Stream.bread = bufio.Reader.Read, Stream.peek, Stream.fillLoop) / runOps',
+ 'partial': [],
+ 'quick_n': 12000,
+ 'rule': 'scripted streams (bodies of 0..12.4k bytes with position-dependent content; per-call schedule of chunk sizes incl. zero-length reads, runs '
+         'of 20-99 zero reads, sizes around the 4096-byte bufio buffer; terminal EOF or error, delivered with the last bytes or separately; Close '
+         'error) x body kind (scripted / nil / http.NoBody) x ContentLength/Content-Length (absent, -1, 0, positive; 4% inconsistent pairs) x '
+         'histories of HasBody, Read(k), Close, Drain(k) (1-40 ops; k in {0,1,2,3,7,16,100,4095,4096,4097,10000}); thorough adds every history of <= '
+         '5 ops over {h,r0,r1,r5000,c,d3} on 8 stream behaviours and every chunking of bodies of <= 7 bytes with and without interleaved zero reads. '
+         "A case is non-trivial when it has at least one op, parses, and its schedule stays below bufio's 100-empty-reads limit; distinct = distinct "
+         'input lines.',
+ 'search_s': 45,
+ 'thorough_n': 60000,
+ 'thorough_seeds': 3,
+ 'trusted_base': ['reading of the property text into the Lean `Spec` (human step, RtVerif/Model/<id>.lean)',
+                  'correspondence check (differential: Go harness /verif/harness -> protocol lines -> compiled Lean driver rtdriver evaluating Model '
+                  'and Spec); coverage bounded by the generators',
+                  "factgen (go/ast extraction of constants/tables into RtVerif/Gen/Facts.lean) and the driver's line parser",
+                  'hand model of bufio.Reader (Peek, Read, fill, readErr, Buffered; RtVerif/Base/Stream.lean, transcribed from '
+                  '$GOROOT/src/bufio/bufio.go) - its two constants are regenerated facts, its behaviour is checked differentially through every case',
+                  'the scripted io.ReadCloser of the harness (props/c17.go c17Src) is what Stream.Src models: sticky terminal, Read after Close '
+                  'fails',
+                  'Go interface semantics: a typed-nil *peekingReader stored in r.Body is modelled as an empty stream that ignores Close']}
+
 # properties not claimed (with the reason) and hook commits in /repo (none so far: no hooks needed)
 NOT_APPLICABLE = {}
 HOOK_COMMITS = []
